@@ -331,4 +331,48 @@ def serverVerifySortition {SK PK Proof Rand} (V : Vrf SK PK Proof Rand) (cdf : F
     (pk : PK) (seed : List UInt8) (index role : Nat) (proof : Proof) (subUsers : Nat) (s : Stakes) : NodeVerdict :=
   nodeSortitionOutcome ctx msgRound index (verifySortition V cdf pk seed index role proof subUsers s)
 
+/-! ### the live prover path: `SortitionManager`'s credential cache (sortition_mgr.go)
+
+`stepviews : map[RoundIndexHash]map[step]*StepView`, `RoundIndexHash = uint64(round) ‖ uint32(index)` (12 bytes).
+`isProposer`/`isValidator` return the cached view if there is one, else compute a fresh credential for the asked
+(round, index, step) and store it (`isProposer` only when it won seats). `ClearStepView(r)` wipes the map unless `r` is the
+manager's round. The model tracks, for every stored view, the inputs it was computed for (`origin`). -/
+
+structure MKey where
+  round : Nat
+  index : Nat
+  step : Nat
+  deriving DecidableEq, Repr
+
+/-- the map key the code derives: `round.Uint64()`, index, step -/
+def slotOf (k : MKey) : Nat × Nat × Nat := (k.round % 2 ^ 64, k.index, k.step)
+
+structure Mgr where
+  round : Nat
+  cache : List ((Nat × Nat × Nat) × MKey)
+
+def Mgr.init : Mgr := ⟨0, []⟩
+
+def Mgr.lookup (m : Mgr) (k : MKey) : Option MKey :=
+  (m.cache.find? (fun e => decide (e.1 = slotOf k))).map (·.2)
+
+/-- a query for `k`; `store` = whether the code stores a freshly computed view (validator: always; proposer: seats > 0).
+    Returns the inputs the handed-out credential was computed for. -/
+def Mgr.query (m : Mgr) (k : MKey) (store : Bool) : Mgr × MKey :=
+  match m.lookup k with
+  | some o => (m, o)
+  | none => (if store then { m with cache := (slotOf k, k) :: m.cache } else m, k)
+
+def Mgr.clear (m : Mgr) (r : Nat) : Mgr := if r = m.round then m else ⟨r, []⟩
+
+inductive MOp where
+  | query (k : MKey) (store : Bool)
+  | clear (r : Nat)
+
+/-- run an op sequence; collects (asked, origin of what was handed out) for every query -/
+def runOps : Mgr → List MOp → List (MKey × MKey)
+  | _, [] => []
+  | m, .query k st :: rest => (k, (m.query k st).2) :: runOps (m.query k st).1 rest
+  | m, .clear r :: rest => runOps (m.clear r) rest
+
 end YouVerif.C04
